@@ -46,7 +46,7 @@ INITS = {
         dict(mu=[[-3.0, 0.0], [2.5, 2.5], [10.0, 10.0]], var=[[1.0, 1.0], [4.0, 0.25], [1.0, 4.0]], w=[0.375, 0.125, 0.5])],
 }
 SWITCHES = [(a, b, c_) for a in (1, 0) for b in (1, 0) for c_ in (1, 0)]
-CAPS = [1, 2, 3, 5, None]
+CAPS = [0, 1, 2, 3, 5, None]
 THRS = [None, 0.0, 1e-3, 0.1, 1.0, 1e9]
 KMAX = {"quick": 4, "thorough": 6}
 KSTOP = 9
@@ -176,6 +176,12 @@ def run_case(case):
             if thr is None:
                 continue  # identical to the trajectory fits above
             if is_dask and (cap, thr) not in ((3, 0.1), (5, 1e-3), (None, 0.1), (2, 1e9)):
+                continue
+            if cap == 0:
+                # no iteration at all: the model must be the initial one, whatever the threshold
+                m0 = fit(0, thr)
+                for i, nm in enumerate(("weights", "means", "variances")):
+                    c.close(_params(m0)[i], traj[0][i], "stop", f"cap=0 thr={thr}: {nm} must be the initial ones", tags, rtol=1e-15)
                 continue
             limit = cap if cap is not None else kfull
             stop, near, undecided = limit, False, cap is None
